@@ -1,4 +1,5 @@
 import Qvnt.Props.C16
+import Qvnt.Props.Code.C16
 open Qvnt
 #print axioms C16_fix_isSome
 #print axioms C16_fix_length
@@ -7,3 +8,4 @@ open Qvnt
 #print axioms C16_len
 #print axioms C16_total
 #print axioms C16_zero
+#print axioms C16_code_sample
